@@ -193,7 +193,13 @@ def run(prog, rep, tier, repo):
             lu_, piv, s_ = rets[0][2]
             ok = tag(lu_) == 'field' and lu_[2] == 0 and tag(piv) == 'field' and piv[2] == 1 and lu_[1] == piv[1] and tag(lu_[1]) == 'call' and \
                 lu_[1][1] == M + '::lu' and lu_[1][2] == (me,) and s_ == sysm
-        (rep.ok if ok else rep.viol)('routing', key, 'solve = lu() then lu_solve(pivots, system)' if ok else 'solve is %s' % [show(r)[:100] for r in rets], site_of(f.body))
+        read = len(rets) == 1 and tag(rets[0]) == 'call' and short(rets[0][1]) == 'lu_solve' and len(rets[0][2]) == 3
+        if ok:
+            rep.ok('routing', key, 'solve = lu() then lu_solve(pivots, system)')
+        elif read:
+            rep.viol('routing', key, 'solve is %s' % [show(r)[:100] for r in rets], site_of(f.body))
+        else:
+            rep.undecided('routing', key, 'solve is not a single lu_solve call on the factors of self.lu() (%s): not read' % [show(r)[:80] for r in rets], site_of(f.body), proof=False)
 
     # ------------------------------------------------------------------ D3 layout (layout algebra, cva/layout.py)
     from ..layout import LayoutEval, Mismatch, Unrecognised
@@ -302,7 +308,19 @@ def run(prog, rep, tier, repo):
                 n = f.call_term  # noqa
                 ok = tag(ones) == 'call' and ones[1] == 'std::vec::from_elem' and tag(ones[2][0]) == 'const' and ones[2][0][2] == 1.0 and \
                     tag(ones[2][1]) == 'call' and short(ones[2][1][1]) == 'unwrap' and ones[2][1][2][0][1] == U + 'is_square' and ones[2][1][2][0][2] == (mtx,)
-        (rep.ok if ok else rep.viol)('inverse', key, 'invert_matrix(a) = solve_sys(a, diag_matrix([1; n])), n = order of a' if ok else 'invert_matrix is %s' % [show(r)[:120] for r in rets], site_of(f.body))
+        # refuted only in the read form: solve_sys(_, diag_matrix(vec![c; n])) written in this body
+        read = len(rets) == 1 and tag(rets[0]) == 'call' and rets[0][1] == U + 'solve_sys' and tag(rets[0][2][1]) == 'call' and (
+            (rets[0][2][1][1] == U + 'diag_matrix' and tag(rets[0][2][1][2][0]) == 'call' and rets[0][2][1][2][0][1] == 'std::vec::from_elem')
+            or (rets[0][2][1][1] == 'std::vec::from_elem' and not any(tag(s_.target) != 'local' for s_ in f.stores())
+                and not any(any(str(ty).startswith('&mut') for ty in (c_.argtys or ())) for c_ in f.calls())))
+        # (a constant-filled right-hand side that is never written afterwards is not the identity for order >= 2)
+        if ok:
+            rep.ok('inverse', key, 'invert_matrix(a) = solve_sys(a, diag_matrix([1; n])), n = order of a')
+        elif read:
+            rep.viol('inverse', key, 'invert_matrix is %s' % [show(r)[:120] for r in rets], site_of(f.body))
+        else:
+            rep.undecided('inverse', key, 'invert_matrix is not solve_sys(a, diag_matrix(vec![1.; n])) written in its body (%s): not read' % [show(r)[:80] for r in rets],
+                          site_of(f.body), proof=False)
     f = prog.func(M + '::inv')
     key = 'inverse:Matrix::inv'
     if f is not None:
@@ -315,7 +333,15 @@ def run(prog, rep, tier, repo):
             ok = tag(rhs) == 'call' and rhs[1] == M + '::eye' and rhs[2][0] == ('field', me, 1, 'usize')
             sq = any(tag(cn) == 'call' and cn[1] == M + '::is_square' and v is True for gl in f.guards().values() for cn, v in gl)
             ok = ok and sq
-        (rep.ok if ok else rep.viol)('inverse', key, 'inv() = solve(eye(nrows)) under assert!(is_square())' if ok else 'Matrix::inv is %s' % [show(r)[:120] for r in rets], site_of(f.body))
+        read = len(rets) == 1 and tag(rets[0]) == 'call' and short(rets[0][1]) == 'solve' and len(rets[0][2]) == 2 and tag(rets[0][2][1]) == 'call' \
+            and rets[0][2][1][1] == M + '::eye' and not any(c.path and c.path in pdb.bodies and short(c.path) not in ('solve', 'eye', 'is_square') for c in f.calls())
+        if ok:
+            rep.ok('inverse', key, 'inv() = solve(eye(nrows)) under assert!(is_square())')
+        elif read:
+            rep.viol('inverse', key, 'Matrix::inv is %s' % [show(r)[:120] for r in rets], site_of(f.body))
+        else:
+            rep.undecided('inverse', key, 'Matrix::inv is not self.solve(Matrix::eye(..)) written in its body (%s): not read' % [show(r)[:80] for r in rets],
+                          site_of(f.body), proof=False)
     rep.floor('inverse', 2, 'invert_matrix, Matrix::inv')
     # ------------------------------------------------------------------ D7 tolerance of the routing predicate
     # Cholesky reads one triangle only; a symmetry test with tolerance T therefore replaces A by a matrix up to T away.
